@@ -35,7 +35,7 @@ theorem sum_filter_map {α : Type} (l : List α) (p : α → Bool) (w : α → N
     ((l.filter p).map w).sum = (l.map fun x => if p x then w x else 0).sum := by
   induction l with
   | nil => rfl
-  | cons a l ih => by_cases h : p a <;> simp [List.filter_cons, h, ih]
+  | cons a l ih => by_cases h : p a <;> simp [h, ih]
 
 theorem sum_map_flatMap {α β : Type} (l : List α) (f : α → List β) (g : β → Nat) :
     ((l.flatMap f).map g).sum = (l.map fun a => ((f a).map g).sum).sum := by
@@ -79,12 +79,8 @@ theorem filter_sum_eq_G (T : List Nat) : ∀ (b n : Nat) (u : Int),
             ≤ u - (2 * (r : Int) * (b : Int) + (r : Int) * ((t : Int) - (r : Int)))) := by
       push_cast [Nat.cast_sub hrt]
       constructor <;> intro h <;> linarith
-    by_cases h : ((twoUofRAux (b + (t - r)) ts v : Int)
-            ≤ u - (2 * (r : Int) * (b : Int) + (r : Int) * ((t : Int) - (r : Int))))
-    · simp only [decide_eq_true_eq]
-      rw [if_pos (hc.mpr h), if_pos h]
-    · simp only [decide_eq_true_eq]
-      rw [if_neg (fun h' => h (hc.mp h')), if_neg h, Nat.mul_zero]
+    simp only [decide_eq_true_eq, hc]
+    split <;> simp
 
 theorem groupCount_eq_G (T : List Nat) (n : Nat) (u : Int) : groupCount T n u = G 0 T n u :=
   filter_sum_eq_G T 0 n u
@@ -119,13 +115,13 @@ theorem G_snoc (T' : List Nat) (t : Nat) : ∀ (b n : Nat) (u : Int),
       have h2 := Finset.mem_range.mp hr0
       have e1 : n - r0 - r = n - r - r0 := by omega
       have e2 : (u - (2 * (r0 : Int) * (b : Int) + (r0 : Int) * ((x : Int) - (r0 : Int)))
-            - (2 * (r : Int) * (((b + (x - r0) : Nat) : Int) + (T''.sum : Nat) - ((n - r0 - r : Nat) : Int))
+            - (2 * (r : Int) * (((b + (x - r0) : Nat) : Int) + (T''.sum : Nat) - ((n - r - r0 : Nat) : Int))
               + (r : Int) * ((t : Int) - (r : Int))))
           = (u - (2 * (r : Int) * ((b : Int) + ((x + T''.sum : Nat) : Int) - ((n - r : Nat) : Int))
               + (r : Int) * ((t : Int) - (r : Int)))
             - (2 * (r0 : Int) * (b : Int) + (r0 : Int) * ((x : Int) - (r0 : Int)))) := by
         have a1 : ((x - r0 : Nat) : Int) = (x : Int) - r0 := by omega
-        have a2 : ((n - r0 - r : Nat) : Int) = (n : Int) - r0 - r := by omega
+        have a2 : ((n - r - r0 : Nat) : Int) = (n : Int) - r0 - r := by omega
         have a3 : ((n - r : Nat) : Int) = (n : Int) - r := by omega
         push_cast
         rw [a1, a2, a3]
@@ -135,5 +131,235 @@ theorem G_snoc (T' : List Nat) (t : Nat) : ∀ (b n : Nat) (u : Int),
     · intro r0 r
       simp only [Finset.mem_range]
       omega
+
+/-! ### the last-group recursion on prefixes of `T` -/
+
+/-- `S T k n u`: the count for the first k groups of `T`, by peeling group k (the shape of the
+    model's step; the decrement is the one of `klotz_step`). -/
+def S (T : List Nat) : Nat → Nat → Int → Nat
+  | 0, n, u => if n = 0 ∧ 0 ≤ u then 1 else 0
+  | k + 1, n, u => ∑ r ∈ Finset.range (min (T.getD k 0) n + 1),
+      Nat.choose (T.getD k 0) r * S T k (n - r)
+        (u - (2 * (r : Int) * ((sumTo T k : Int) - ((n - r : Nat) : Int))
+              + (r : Int) * (((T.getD k 0 : Nat) : Int) - (r : Int))))
+
+theorem sumTo_eq_sum (T : List Nat) (k : Nat) : sumTo T k = (T.take k).sum := by
+  unfold sumTo
+  rw [List.sum_eq_foldl_nat]
+
+theorem sumTo_zero (T : List Nat) : sumTo T 0 = 0 := by simp [sumTo]
+
+/-- (a) the snoc decomposition of the specification count, on prefixes -/
+theorem S_eq_G (T : List Nat) : ∀ (k : Nat), k ≤ T.length → ∀ (n : Nat) (u : Int),
+    S T k n u = G 0 (T.take k) n u := by
+  intro k
+  induction k with
+  | zero => intro _ n u; simp [S, G]
+  | succ k ih =>
+    intro hk n u
+    have hk' : k < T.length := hk
+    have hg : T.getD k 0 = T[k] := by
+      simp [List.getD_eq_getElem?_getD, List.getElem?_eq_getElem hk']
+    rw [List.take_succ_eq_append_getElem hk', G_snoc, S, hg]
+    apply Finset.sum_congr rfl
+    intro r _
+    rw [ih (Nat.le_of_lt hk'), sumTo_eq_sum]
+    simp
+
+theorem S_eq_groupCount (T : List Nat) (n : Nat) (u : Int) :
+    S T T.length n u = groupCount T n u := by
+  rw [S_eq_G T T.length (Nat.le_refl _), List.take_length, groupCount_eq_G]
+
+/-- (a) as a statement about `groupCount` itself -/
+theorem groupCount_snoc (T' : List Nat) (t n : Nat) (u : Int) :
+    groupCount (T' ++ [t]) n u = ∑ r ∈ Finset.range (min t n + 1),
+      Nat.choose t r * groupCount T' (n - r)
+        (u - (2 * (r : Int) * ((T'.sum : Int) - ((n - r : Nat) : Int))
+              + (r : Int) * ((t : Int) - (r : Int)))) := by
+  rw [groupCount_eq_G, G_snoc]
+  apply Finset.sum_congr rfl
+  intro r _
+  rw [groupCount_eq_G]
+  simp
+
+/-- more first-sample members than pool members: no assignment -/
+theorem S_big (T : List Nat) : ∀ (k n : Nat) (u : Int), sumTo T k < n → S T k n u = 0 := by
+  intro k
+  induction k with
+  | zero =>
+    intro n u h
+    rw [sumTo_zero] at h
+    simp [S]; omega
+  | succ k ih =>
+    intro n u h
+    rw [sumTo_succ] at h
+    rw [S]
+    apply Finset.sum_eq_zero
+    intro r hr
+    have := Finset.mem_range.mp hr
+    rw [ih, Nat.mul_zero]
+    omega
+
+/-! ### closed forms of `twoUmax` / `twoUmin` -/
+
+/-- greedy filling from the highest group: Σ x_j·a_j -/
+def Mx (T : List Nat) : Nat → Int → Int
+  | 0, _ => 0
+  | k + 1, m => min m ((T.getD k 0 : Nat) : Int) * aCoef T (k + 1)
+      + Mx T k (m - min m ((T.getD k 0 : Nat) : Int))
+
+/-- greedy filling from the lowest group: Σ x_j·a_j -/
+def Mn (T : List Nat) : Nat → Int → Int
+  | 0, _ => 0
+  | k + 1, m => Mn T k m
+      + min (max 0 (m - (sumTo T k : Int))) ((T.getD k 0 : Nat) : Int) * aCoef T (k + 1)
+
+theorem twoUstep_succ (T : List Nat) (k : Nat) (s m : Int) :
+    twoUstep T (k + 1) (s, m)
+      = (s + min m ((T.getD k 0 : Nat) : Int) * aCoef T (k + 1), m - min m ((T.getD k 0 : Nat) : Int)) := by
+  simp [twoUstep]
+
+theorem twoUmax_fold (T : List Nat) : ∀ (k : Nat) (s m : Int),
+    ((List.range k).foldl (fun st i => twoUstep T (k - i) st) (s, m)).1 = s + Mx T k m := by
+  intro k
+  induction k with
+  | zero => intro s m; simp [Mx]
+  | succ k ih =>
+    intro s m
+    rw [List.range_succ_eq_map, List.foldl_cons, List.foldl_map]
+    simp only [Nat.sub_zero, Nat.succ_eq_add_one, Nat.add_sub_add_right]
+    rw [twoUstep_succ, ih, Mx]
+    ring
+
+theorem twoUmax_eq (T : List Nat) (k : Nat) (m : Int) :
+    twoUmax T k m = -(m * m) + Mx T k m := by
+  unfold twoUmax
+  rw [twoUmax_fold]
+
+theorem twoUmin_fold (T : List Nat) (m : Int) (hm : 0 ≤ m) : ∀ (k : Nat),
+    (List.range k).foldl (fun st i => twoUstep T (i + 1) st) (-(m * m), m)
+      = (-(m * m) + Mn T k m, max 0 (m - (sumTo T k : Int))) := by
+  intro k
+  induction k with
+  | zero => simp [Mn, sumTo_zero]; omega
+  | succ k ih =>
+    rw [List.range_succ, List.foldl_append, ih]
+    simp only [List.foldl_cons, List.foldl_nil]
+    rw [twoUstep_succ, Mn, sumTo_succ]
+    refine Prod.ext ?_ ?_
+    · simp only; ring
+    · simp only; push_cast; omega
+
+theorem twoUmin_eq (T : List Nat) (k : Nat) (m : Int) (hm : 0 ≤ m) :
+    twoUmin T k m = -(m * m) + Mn T k m := by
+  unfold twoUmin
+  rw [twoUmin_fold T m hm]
+
+/-! ### one more member costs at most a[k] -/
+
+theorem aCoef_nonneg (T : List Nat) (k : Nat) : 0 ≤ aCoef T k := by
+  cases k with
+  | zero => simp [aCoef]
+  | succ k => rw [aCoef_eq]; positivity
+
+theorem aCoef_mono (T : List Nat) (k : Nat) : aCoef T k ≤ aCoef T (k + 1) := by
+  cases k with
+  | zero => rw [aCoef_eq]; simp [aCoef]; positivity
+  | succ k =>
+    rw [aCoef]
+    have h1 : (0 : Int) ≤ ((T.getD k 0 : Nat) : Int) := Int.natCast_nonneg _
+    have h2 : (0 : Int) ≤ ((T.getD (k + 1) 0 : Nat) : Int) := Int.natCast_nonneg _
+    linarith
+
+theorem Mx_step (T : List Nat) : ∀ (k : Nat) (m : Int), 0 ≤ m →
+    Mx T k (m + 1) ≤ Mx T k m + aCoef T k := by
+  intro k
+  induction k with
+  | zero => intro m _; simp [Mx, aCoef]
+  | succ k ih =>
+    intro m hm
+    rw [Mx, Mx]
+    by_cases h : m < ((T.getD k 0 : Nat) : Int)
+    · rw [min_eq_left (by omega : m + 1 ≤ ((T.getD k 0 : Nat) : Int)), min_eq_left (le_of_lt h)]
+      have e1 : m + 1 - (m + 1) = 0 := by ring
+      have e2 : m - m = 0 := by ring
+      rw [e1, e2]
+      linarith
+    · have h' : ((T.getD k 0 : Nat) : Int) ≤ m := by omega
+      rw [min_eq_right (by omega : ((T.getD k 0 : Nat) : Int) ≤ m + 1), min_eq_right h']
+      have e1 : m + 1 - ((T.getD k 0 : Nat) : Int) = (m - ((T.getD k 0 : Nat) : Int)) + 1 := by ring
+      rw [e1]
+      have := ih (m - ((T.getD k 0 : Nat) : Int)) (by omega)
+      have := aCoef_mono T k
+      linarith
+
+theorem Mx_add (T : List Nat) (k : Nat) (m : Int) (hm : 0 ≤ m) : ∀ (d : Nat),
+    Mx T k (m + d) ≤ Mx T k m + d * aCoef T k := by
+  intro d
+  induction d with
+  | zero => simp
+  | succ d ih =>
+    have := Mx_step T k (m + d) (by omega)
+    have e : m + ((d + 1 : Nat) : Int) = m + d + 1 := by push_cast; ring
+    rw [e]
+    push_cast
+    linarith
+
+theorem Mn_sat (T : List Nat) : ∀ (k : Nat) (m : Int), (sumTo T k : Int) ≤ m →
+    Mn T k (m + 1) = Mn T k m := by
+  intro k
+  induction k with
+  | zero => intro m _; simp [Mn]
+  | succ k ih =>
+    intro m hm
+    rw [sumTo_succ] at hm
+    push_cast at hm
+    rw [Mn, Mn, ih m (by omega)]
+    have e1 : min (max 0 (m + 1 - (sumTo T k : Int))) ((T.getD k 0 : Nat) : Int) = ((T.getD k 0 : Nat) : Int) := by omega
+    have e2 : min (max 0 (m - (sumTo T k : Int))) ((T.getD k 0 : Nat) : Int) = ((T.getD k 0 : Nat) : Int) := by omega
+    rw [e1, e2]
+
+theorem Mn_sat_add (T : List Nat) (k : Nat) (m : Int) (hm : (sumTo T k : Int) ≤ m) : ∀ (d : Nat),
+    Mn T k (m + d) = Mn T k m := by
+  intro d
+  induction d with
+  | zero => simp
+  | succ d ih =>
+    have e : m + ((d + 1 : Nat) : Int) = m + d + 1 := by push_cast; ring
+    rw [e, Mn_sat T k (m + d) (by omega), ih]
+
+theorem Mn_step (T : List Nat) : ∀ (k : Nat) (m : Int), 0 ≤ m →
+    Mn T k (m + 1) ≤ Mn T k m + aCoef T k := by
+  intro k
+  induction k with
+  | zero => intro m _; simp [Mn, aCoef]
+  | succ k ih =>
+    intro m hm
+    rw [Mn, Mn]
+    have ha := aCoef_nonneg T (k + 1)
+    have hmono := aCoef_mono T k
+    by_cases h : m < (sumTo T k : Int)
+    · have e1 : min (max 0 (m + 1 - (sumTo T k : Int))) ((T.getD k 0 : Nat) : Int) = 0 := by omega
+      have e2 : min (max 0 (m - (sumTo T k : Int))) ((T.getD k 0 : Nat) : Int) = 0 := by omega
+      rw [e1, e2]
+      have := ih m hm
+      linarith
+    · rw [Mn_sat T k m (by omega)]
+      have hx : min (max 0 (m + 1 - (sumTo T k : Int))) ((T.getD k 0 : Nat) : Int)
+          ≤ min (max 0 (m - (sumTo T k : Int))) ((T.getD k 0 : Nat) : Int) + 1 := by omega
+      have := mul_le_mul_of_nonneg_right hx ha
+      linarith
+
+theorem Mn_add (T : List Nat) (k : Nat) (m : Int) (hm : 0 ≤ m) : ∀ (d : Nat),
+    Mn T k (m + d) ≤ Mn T k m + d * aCoef T k := by
+  intro d
+  induction d with
+  | zero => simp
+  | succ d ih =>
+    have := Mn_step T k (m + d) (by omega)
+    have e : m + ((d + 1 : Nat) : Int) = m + d + 1 := by push_cast; ring
+    rw [e]
+    push_cast
+    linarith
 
 end C11
